@@ -45,7 +45,8 @@ KERNELS_OF = {
     "C01": ["insert_unchecked_cmds", "push_unchecked_cmds", "clear_cmds", "pop_consume_cmds", "remove_consume_cmds",
             "swap_remove_consume_cmds", "raw_index_check_trace", "anyvec_push_trace", "anyvec_insert_trace", "anyvec_pop_trace",
             "anyvec_remove_trace", "anyvec_swap_remove_trace", "anyvec_drain_trace", "anyvec_clear_trace", "typed_push_trace",
-            "typed_insert_trace", "typed_pop_trace", "typed_remove_trace", "typed_swap_remove_trace", "typed_clear_trace"],
+            "typed_insert_trace", "typed_pop_trace", "typed_remove_trace", "typed_swap_remove_trace", "typed_clear_trace",
+            "copy_bytes_prog"],
     "C02": ["into_range", "drain_drop_cmds", "move_elements_at_cmds", "splice_drop_pre_cmds", "splice_drop_post_cmds"],
     "C03": ["drop_elements_range_cmds", "temp_drop_cmds", "clear_cmds", "pop_new", "remove_new", "swap_remove_new", "drop_fn_cmds"],
     "C04": ["raw_type_check_trace", "anyvec_push_trace", "anyvec_insert_trace", "typed_push_trace", "typed_insert_trace",
